@@ -60,7 +60,7 @@ structure Heap where
 inductive Res (α : Type) where
   | ok (a : α) (h : Heap)
   | fault (f : Fault)
-  deriving Repr
+  deriving DecidableEq, Repr
 
 def M (α : Type) := Heap → Res α
 
